@@ -14,6 +14,13 @@
                  (integer parameters live in registers: register against register)
      llt .. llook   inside a function where x is a parameter and y a plain local value
                  (register on the left), and  rlt .. rlook  with the register on the right
+     clt .. clook   with three nested calls on the stack: x is a variable of the outermost call,
+                 the call in between has read it before (which leaves a reference to it in that
+                 frame), and the innermost call evaluates the operators against its own
+                 parameter y (captured operand on the left), and  dlt .. dlook  the same through
+                 the call stack of a recursion (a function sees the variables of its callers): y
+                 is a variable of the call two levels up, the level in between has read it, the
+                 innermost level compares its own x with it (operand of a caller on the right)
      mn mx       which value min([x,y]) / max([x,y]) returned (the list form: a trailing array
                  argument is spread, so this is how a program takes the smaller of two arbitrary
                  values): 1 = x, 2 = y, 3 = x and y are the same value, 0 = neither, 8 = error,
@@ -21,10 +28,15 @@
    and per value x
      cc[x] ec[x]    cmp / eq between x and an independently built copy of x
      scc[x] sec[x]  (x<=copy && copy<=x) and (x==copy) from grol source
+     xc[x] xe[x]    cmp / eq between the constructed object x and the value the interpreter makes
+                 of the source text of x (the copy that was written down)
      big[x] sbig[x] the index whose value comes back when x is looked up in ONE map that
                  holds every value of U as key, set in index order, with its index as value
                  (0 = not found, -1 = panic): constructed / from a map literal in source
      bigr[x] sbigr[x]  the same with the keys set in reverse index order
+     gbig[x] sgbig[x] gbigr[x] sgbigr[x]  the same for a map that starts empty and receives one key
+                 after the other (Map.Set on the empty map / m = {} and one assignment m[k] = i per
+                 key): it changes its representation on the way
 
    Values with a history.  A universe value may carry two tags that the documented order
    ignores (GrolOrder!Cmp reads t and v only) and that tell the harness HOW and WHEN to make it:
@@ -32,7 +44,21 @@
             "shrunk"   a map that held 5 more entries which were deleted again (del)
             "dupkeys"  a map written with its first pair repeated four times before the pairs
             "slice"    an array taken as a slice of a longer array
-          (a value and its differently built twin are the same value: == both ways, cmp = 0)
+            "grown"    a map that starts empty and receives its pairs one assignment after the
+                       other, in the order in which `v` lists them (`v` of such a value is the
+                       list of pairs as set, not the sorted map; Norm gives the map); an array
+                       that starts empty and is extended one element at a time
+            "merged"   a map that is the sum m1 + m2 of the leading and the trailing pairs of `v`
+                       (halves; "merged_head": the first pair + the others; "merged_tail": all
+                       but the last pair + the last)
+          or, for a number, the notation of the literal in the source text:
+            "intlit"   a float that is an integer beyond the int64 range written as its digits,
+                       9223372036854775808 (an integer literal that does not fit is a float)
+            "exp"      a float in exponent notation, 9.007199254740992e+15
+            "hex"      an integer as 0x.. ;  "under"  with digits grouped, 9_007_199
+            "lit"      -9223372036854775808 written as such (not as -9223372036854775807-1)
+          (a value and its differently built / written twin are the same value: == both ways,
+          cmp = 0; the constructed object and the value of the source text are copies)
      ep   the epoch of the session in which the value is created.  Before the values of epoch
           e > 0 are made the session goes through event HistoryEvents[e] - a top level
           function is redefined, a constant is deleted and bound again, many functions are
@@ -54,9 +80,10 @@
                     all of them are the one order of cmp (the order behind the operators
                     and the order behind map keys are the same order)
      ==             an equivalence that implies cmp = 0 and holds between a value and its copy:
-                    the independently built copy, and every other member of the universe
-                    that is the same value (same_value_equal: built differently, or in
-                    another epoch)
+                    the independently built copy, the value of its source text against the
+                    constructed object (copy_equal / copy_equivalent "written"), and every
+                    other member of the universe that is the same value (same_value_equal:
+                    built differently, written in another notation, or made in another epoch)
      min / max      return one of their arguments, a smallest / largest one
      map keys       y is found under key x exactly when cmp[x][y] = 0; in a map holding all
                     values, looking up x gives a value that was stored under a key
@@ -81,7 +108,10 @@
                         src = "curated"  what the real code answered on OrderUniverse;
                         src = "history"  what it answered on HistoryUniverse (values of
                                          several epochs of one session);
-                        src = "random"   what it answered on a generated universe `u`.
+                        src = "random"   what it answered on a generated universe `u`;
+                        src = "selftest" a table with one entry corrupted on purpose: the harness
+                                         requires that its broken law is reported (binding
+                                         self-test, part of the same run).
                       For the recorded batches every entry at (x, y) is also compared with
                       what GrolOrder says for that pair; a difference is emitted as law
                       "model_disagreement" - evidence, not a violation (the verdict of C12 is
@@ -112,6 +142,8 @@ Fn(src, txt) == [t |-> "func", v |-> txt, src |-> src]   \* src: grol source, v:
 Qu(src, txt) == [t |-> "quote", v |-> txt, src |-> src]  \* quoted code, v: as the interpreter prints it
 Ext(name)    == [t |-> "ext", v |-> name, src |-> name]  \* a built-in function value
 Built(a, h)  == [t |-> a.t, v |-> a.v, how |-> h]        \* the same container, built differently
+Written(a, h) == [t |-> a.t, v |-> a.v, how |-> h]       \* the same number, written in another notation
+Listed(prs, h) == [t |-> "map", v |-> prs, how |-> h]    \* a map given by its pairs in the order in which they are set
 At(a, e)     == a @@ [ep |-> e]                          \* the same value, made in epoch e
 
 P53    == "9007199254740992"     \* 2^53
@@ -124,11 +156,18 @@ FInf   == "7ff0000000000000"     FNInf  == "fff0000000000000"
 F53    == "4340000000000000"     \* 2^53 as float
 F53p2  == "4340000000000001"     \* 2^53 + 2
 F63    == "43e0000000000000"     \* 2^63 as float (above every int64)
+F63p   == "43e0000000000001"     \* 2^63 + 2048: the next float
+F64    == "43f0000000000000"     \* 2^64
 FN63   == "c3e0000000000000"     \* -2^63 = MinInt64 exactly
 
 F1 == Fn("func(x){x}", "x=>x")
 F2 == Fn("func(x){x+1}", "x=>x+1")
 F3 == Fn("func(a,b){a+b}", "(a,b)=>a+b")
+
+Range9(last) == <<I("1"), I("2"), I("3"), I("4"), I("5"), I("6"), I("7"), I("8"), I(last)>>
+Map5(last) == << <<I("1"), I("1")>>, <<I("2"), I("2")>>, <<I("3"), I("3")>>, <<I("4"), I("4")>>, <<I("5"), I(last)>> >>
+
+Six == << <<I("3"), I("3")>> >> \o Map5("5") \o << <<I("0"), I("0")>> >>   \* 3 is listed twice: six entries
 
 UniverseQuick == <<
   \* integers: small, around 2^53, around 2^63
@@ -157,10 +196,20 @@ UniverseQuick == <<
   Built(M(<< <<S("a"), A(<<I("1")>>)>> >>), "shrunk"),
   Built(A(<<I("1"), I("2")>>), "slice"),
   A(<<Built(M(<< <<I("1"), I("1")>> >>), "shrunk")>>), A(<<M(<< <<I("1"), I("1")>> >>)>>),
-  M(<< <<Built(M(<< <<I("1"), I("1")>> >>), "dupkeys"), I("1")>> >>), M(<< <<M(<< <<I("1"), I("1")>> >>), I("1")>> >>) >>
-
-Range9(last) == <<I("1"), I("2"), I("3"), I("4"), I("5"), I("6"), I("7"), I("8"), I(last)>>
-Map5(last) == << <<I("1"), I("1")>>, <<I("2"), I("2")>>, <<I("3"), I("3")>>, <<I("4"), I("4")>>, <<I("5"), I(last)>> >>
+  M(<< <<Built(M(<< <<I("1"), I("1")>> >>), "dupkeys"), I("1")>> >>), M(<< <<M(<< <<I("1"), I("1")>> >>), I("1")>> >>),
+  \* the same numbers written in another notation: 2^63 as the digits 9223372036854775808 (a float:
+  \* it fits no int64), MinInt64 as -9223372036854775808, 2^53+1 as 0x20000000000001
+  Written(F(F63), "intlit"), Written(I(MinI), "lit"), Written(I(P53p1), "hex"),
+  \* a map of five entries (one more than the small representation holds) written as a literal,
+  \* grown from the empty map one assignment at a time in descending key order (the fifth key is
+  \* the smallest), and as the sum {1,3,5} + {2,4} (the fifth key lands in the middle)
+  M(Map5("5")),
+  Listed(<< <<I("5"), I("5")>>, <<I("4"), I("4")>>, <<I("3"), I("3")>>, <<I("2"), I("2")>>, <<I("1"), I("1")>> >>, "grown"),
+  Listed(<< <<I("1"), I("1")>>, <<I("3"), I("3")>>, <<I("5"), I("5")>>, <<I("2"), I("2")>>, <<I("4"), I("4")>> >>, "merged"),
+  \* six entries as small + big, as big + small and grown in another order, next to the literals (one
+  \* array of the three maps against one array of three literals: two values instead of six)
+  A(<<Listed(Six, "merged_head"), Listed(Six, "merged_tail"), Listed(Six, "grown")>>),
+  A(<<M(Six), M(Six), M(Six)>>) >>
 
 UniverseMore == <<
   I("2"), I("-9007199254740993"), I("9007199254740994"), I("-9007199254740992"),
@@ -179,12 +228,25 @@ UniverseMore == <<
   M(<< <<S("a"), I("1")>> >>), M(<< <<Nil, I("1")>> >>), M(<< <<A(<<>>), I("1")>> >>),
   M(<< <<M(<<>>), I("1")>> >>), M(<< <<I("1"), A(<<I("1")>>)>> >>), M(<< <<I("1"), A(<<F(FOne)>>)>> >>),
   M(<< <<I(P53p1), I("1")>> >>), M(<< <<F(F53), I("1")>> >>), M(<< <<I(P53), I("1")>> >>),
-  M(Map5("5")), M(Map5("6")),                   \* more than 4 entries: the big representation
+  M(Map5("6")),                                 \* more than 4 entries: the big representation (Map5("5") is above)
   F3, Ext("cos"), A(<<Qu("quote(x)", "quote(x)")>>),
   Built(M(<< <<I("1"), I("2")>> >>), "shrunk"), Built(M(<< <<S("a"), I("1")>> >>), "dupkeys"),
   Built(M(<< <<F(FOne), I("1")>> >>), "shrunk"), Built(M(<< <<I("1"), A(<<I("1")>>)>> >>), "dupkeys"),
   Built(A(<<>>), "slice"), Built(A(<<I("1")>>), "slice"), Built(A(<<A(<<I("1")>>)>>), "slice"),
-  M(<< <<I("1"), Built(M(<< <<I("1"), I("1")>> >>), "shrunk")>> >>), M(<< <<I("1"), M(<< <<I("1"), I("1")>> >>)>> >>) >>
+  M(<< <<I("1"), Built(M(<< <<I("1"), I("1")>> >>), "shrunk")>> >>), M(<< <<I("1"), M(<< <<I("1"), I("1")>> >>)>> >>),
+  \* more notations: the floats next to 2^63 and 2^64 as digit strings, exponent notation, grouped digits
+  Written(F(F63p), "intlit"), F(F63p), Written(F(F64), "intlit"), Written(F(F53), "exp"), Written(F(FOne), "exp"),
+  Written(I("9223372036854775806"), "under"), Written(I(MaxI), "hex"), Written(I(MinI), "hex"), Written(I("-1"), "hex"),
+  A(<<Written(F(F63), "intlit")>>), M(<< <<Written(F(F63), "intlit"), I("1")>> >>), M(<< <<F(F63), I("1")>> >>),
+  \* containers that pass the representation threshold while they are built
+  Built(A(Range9("9")), "grown"), Built(M(Map5("6")), "grown"), Built(M(Map5("6")), "merged"),
+  \* six entries: small + big, big + small, and the literal
+  Listed(Six, "merged_head"), Listed(Six, "merged_tail"), M(Six),
+  Listed(<< <<I("3"), I("3")>>, <<I("1"), I("1")>>, <<I("4"), I("4")>>, <<I("5"), I("6")>>, <<I("2"), I("2")>> >>, "grown"),
+  Listed(<< <<S("a"), I("1")>>, <<S("b"), I("2")>>, <<S("d"), I("4")>>, <<S("e"), I("5")>>, <<S("c"), I("3")>> >>, "grown"),
+  M(<< <<S("a"), I("1")>>, <<S("b"), I("2")>>, <<S("c"), I("3")>>, <<S("d"), I("4")>>, <<S("e"), I("5")>> >>),
+  A(<<Listed(<< <<I("5"), I("5")>>, <<I("4"), I("4")>>, <<I("3"), I("3")>>, <<I("2"), I("2")>>, <<I("1"), I("1")>> >>, "grown")>>),
+  A(<<M(Map5("5"))>>) >>
 
 OrderUniverse == IF Tier = "quick" THEN UniverseQuick ELSE UniverseQuick \o UniverseMore
 
@@ -230,9 +292,15 @@ AllKeys(U, acc, k) == IF k > Len(U) THEN acc ELSE AllKeys(U, MapSet(acc, U[k], k
 RECURSIVE AllKeysRev(_, _, _)
 AllKeysRev(U, acc, k) == IF k < 1 THEN acc ELSE AllKeysRev(U, MapSet(acc, U[k], k), k - 1)
 
-ModelBatch(U) ==
-  LET n  == Len(U)
+\* (the documented order is about the values: Norm drops how they were made; built as a tuple,
+\* because a function [p \in D |-> Norm(..)] would be evaluated again at every application)
+RECURSIVE NormSeq(_, _)
+NormSeq(UU, k) == IF k > Len(UU) THEN <<>> ELSE <<Norm(UU[k])>> \o NormSeq(UU, k + 1)
+
+ModelBatch(UU) ==
+  LET n  == Len(UU)
       D  == 1..n
+      U  == NormSeq(UU, 1)
       C  == [p \in D |-> [q \in D |-> Cmp(U[p], U[q])]]
       E  == [p \in D |-> [q \in D |-> Bit(U[p].t = U[q].t /\ C[p][q] = 0)]]
       Z  == [p \in D |-> [q \in D |-> Bit(C[p][q] = 0)]]
@@ -247,15 +315,19 @@ ModelBatch(U) ==
       BG == [p \in D |-> IF MapHas(all, U[p]) THEN MapGet(all, U[p]) ELSE 0]
       rev == AllKeysRev(U, <<>>, n)
       BR == [p \in D |-> IF MapHas(rev, U[p]) THEN MapGet(rev, U[p]) ELSE 0]
-  IN [n |-> n, src |-> "model", u |-> U,
+  IN [n |-> n, src |-> "model", u |-> UU,
       cmp |-> C, eq |-> E, look |-> Z,
       tlt |-> LT, tle |-> LE, tgt |-> GT, tge |-> GE, teq |-> E, tne |-> NE, tlook |-> Z,
       plt |-> LT, ple |-> LE, pgt |-> GT, pge |-> GE, peq |-> E, pne |-> NE, plook |-> Z,
       llt |-> LT, lle |-> LE, lgt |-> GT, lge |-> GE, leq |-> E, lne |-> NE, llook |-> Z,
       rlt |-> LT, rle |-> LE, rgt |-> GT, rge |-> GE, req |-> E, rne |-> NE, rlook |-> Z,
+      clt |-> LT, cle |-> LE, cgt |-> GT, cge |-> GE, ceq |-> E, cne |-> NE, clook |-> Z,
+      dlt |-> LT, dle |-> LE, dgt |-> GT, dge |-> GE, deq |-> E, dne |-> NE, dlook |-> Z,
       mn |-> MN, mx |-> MX,
       cc |-> [p \in D |-> 0], ec |-> [p \in D |-> 1], scc |-> [p \in D |-> 1], sec |-> [p \in D |-> 1],
-      big |-> BG, sbig |-> BG, bigr |-> BR, sbigr |-> BR]
+      xc |-> [p \in D |-> 0], xe |-> [p \in D |-> 1],
+      big |-> BG, sbig |-> BG, bigr |-> BR, sbigr |-> BR,
+      gbig |-> BG, sgbig |-> BG, gbigr |-> BR, sgbigr |-> BR]
 
 \* ------------------------------------------------------------------ the tables under check
 Batches == IF Mode = "table" THEN ndJsonDeserialize("order_table.ndjson") ELSE <<>>
@@ -287,10 +359,23 @@ T(v)   == v = 1                       \* a recorded boolean is true
 Fl(v)  == v = 0                       \* .. is false (8 and 9 are neither)
 Bool(v) == v \in {0, 1}
 
-Forms == <<"t", "p", "l", "r">>       \* top level, parameters, register left, register right
+\* top level, parameters, register left, register right, reached through the frames of other calls: the
+\* variable of an enclosing closure call on the left, the variable of a caller (recursion) on the right
+Forms == <<"t", "p", "l", "r", "c", "d">>
 Ops7  == <<"lt", "le", "gt", "ge", "eq", "ne", "look">>
 FormTag(f) == CASE f = "t" -> "top" [] f = "p" -> "param" [] f = "l" -> "register_left" [] f = "r" -> "register_right"
-PairFields == [k \in 1..28 |-> StrCat(Forms[((k - 1) \div 7) + 1], Ops7[((k - 1) % 7) + 1])]
+                [] f = "c" -> "captured_left" [] f = "d" -> "caller_right"
+\* the seven fields of each form, written out (a literal tuple is a constant; names built with StrCat
+\* would be built again in every state)
+FormOps == << <<"tlt", "tle", "tgt", "tge", "teq", "tne", "tlook">>,
+              <<"plt", "ple", "pgt", "pge", "peq", "pne", "plook">>,
+              <<"llt", "lle", "lgt", "lge", "leq", "lne", "llook">>,
+              <<"rlt", "rle", "rgt", "rge", "req", "rne", "rlook">>,
+              <<"clt", "cle", "cgt", "cge", "ceq", "cne", "clook">>,
+              <<"dlt", "dle", "dgt", "dge", "deq", "dne", "dlook">> >>
+ASSUME /\ Len(FormOps) = Len(Forms)
+       /\ \A f \in 1..Len(Forms) : \A o \in 1..7 : FormOps[f][o] = StrCat(Forms[f], Ops7[o])
+PairFields == FormOps[1] \o FormOps[2] \o FormOps[3] \o FormOps[4] \o FormOps[5] \o FormOps[6]
 
 Rec(law, k, p, q, zs, cnt, info) ==
   [law |-> law, b |-> k, x |-> p, y |-> q, z |-> zs, n |-> cnt, info |-> info]
@@ -332,11 +417,11 @@ CmpAt(R, k, p, q) ==
           One(T(R.look[p][q]) <=> c = 0, "lookup_is_equiv", k, p, q, "look") >>, 1)
 
 \* --- the operators from source: mutually consistent and the same order as cmp
-OpsAt(R, k, p, q, f) ==
+OpsAt(R, k, p, q, fi) ==
   LET c   == R.cmp[p][q]
-      tag == FormTag(f)
-      lt == StrCat(f, "lt")  le == StrCat(f, "le")  gt == StrCat(f, "gt")  ge == StrCat(f, "ge")
-      es == StrCat(f, "eq")  ns == StrCat(f, "ne")  lk == StrCat(f, "look")
+      tag == FormTag(Forms[fi])
+      N  == FormOps[fi]
+      lt == N[1]  le == N[2]  gt == N[3]  ge == N[4]  es == N[5]  ns == N[6]  lk == N[7]
   IN
   Flat(<< One(T(R[lt][p][q]) <=> T(R[gt][q][p]), "ops_lt_gt", k, p, q, tag),
           One(T(R[le][p][q]) <=> ~T(R[gt][p][q]), "ops_le_not_gt", k, p, q, tag),
@@ -364,14 +449,17 @@ MinMaxAt(R, k, p, q) ==
               /\ R.mx[p][q] = 2 => d >= 0, "max_consistent", k, p, q, "") >>, 1)
 
 \* --- per value (evaluated at p = q)
-BigFields == <<"big", "sbig", "bigr", "sbigr">>
+BigFields == <<"big", "sbig", "bigr", "sbigr", "gbig", "sgbig", "gbigr", "sgbigr">>
 ValueAt(R, k, p) ==
   Flat(<< One(R.cc[p] # 99 /\ R.ec[p] # 9 /\ R.scc[p] # 9 /\ R.sec[p] # 9, "total", k, p, p, "copy"),
+          One(R.xc[p] # 99 /\ R.xe[p] # 9, "total", k, p, p, "written"),
           One(R.scc[p] # 8 /\ R.sec[p] # 8, "answered", k, p, p, "copy"),
           One(R.ec[p] \in {1, 9}, "copy_equal", k, p, p, "eq"),
           One(R.sec[p] \in {1, 8, 9}, "copy_equal", k, p, p, "eqs"),
+          One(R.xe[p] \in {1, 9}, "copy_equal", k, p, p, "written"),
           One(R.cc[p] \in {0, 99}, "copy_equivalent", k, p, p, "cmp"),
           One(R.scc[p] \in {1, 8, 9}, "copy_equivalent", k, p, p, "le"),
+          One(R.xc[p] \in {0, 99}, "copy_equivalent", k, p, p, "written"),
           Flat([f \in 1..Len(BigFields) |->
                   LET g == R[BigFields[f]][p] IN
                   One(g # -1, "total", k, p, p, BigFields[f])
@@ -398,7 +486,7 @@ TriplesAt(R, k, p, q) ==
 \* observation it reads is an answer (no panic 9 / 99, no error 8) in both directions
 MatrixFields == <<"cmp", "eq", "look", "mn", "mx">> \o PairFields
 Ans(R, fs, p, q) == \A f \in 1..Len(fs) : R[fs[f]][p][q] \notin {8, 9, 99} /\ R[fs[f]][q][p] \notin {8, 9, 99}
-FormFields(f) == [k \in 1..7 |-> StrCat(f, Ops7[k])]
+CmpEq == <<"cmp", "eq">>
 
 Broken(R, k, p, q) ==
   LET all == Ans(R, MatrixFields, p, q)      \* fast path: everything answered
@@ -407,7 +495,7 @@ Broken(R, k, p, q) ==
   Flat(<< IF all THEN <<>> ELSE TotalAt(R, k, p, q),
           IF ok(<<"cmp", "eq", "look">>) THEN CmpAt(R, k, p, q) ELSE <<>>,
           Flat([f \in 1..Len(Forms) |->
-                  IF ok(<<"cmp", "eq">> \o FormFields(Forms[f])) THEN OpsAt(R, k, p, q, Forms[f]) ELSE <<>>], 1),
+                  IF ok(CmpEq \o FormOps[f]) THEN OpsAt(R, k, p, q, f) ELSE <<>>], 1),
           IF ok(<<"cmp", "mn", "mx">>) THEN MinMaxAt(R, k, p, q) ELSE <<>>,
           IF p = q THEN ValueAt(R, k, p) ELSE <<>>,
           TriplesAt(R, k, p, q) >>, 1)
@@ -422,12 +510,14 @@ ModelAt(a, c) ==
       plt |-> lt, ple |-> le, pgt |-> gt, pge |-> ge, peq |-> e, pne |-> 1 - e, plook |-> z,
       llt |-> lt, lle |-> le, lgt |-> gt, lge |-> ge, leq |-> e, lne |-> 1 - e, llook |-> z,
       rlt |-> lt, rle |-> le, rgt |-> gt, rge |-> ge, req |-> e, rne |-> 1 - e, rlook |-> z,
+      clt |-> lt, cle |-> le, cgt |-> gt, cge |-> ge, ceq |-> e, cne |-> 1 - e, clook |-> z,
+      dlt |-> lt, dle |-> le, dgt |-> gt, dge |-> ge, deq |-> e, dne |-> 1 - e, dlook |-> z,
       mn |-> IF Same(a, c) THEN 3 ELSE IF cb < 0 THEN 2 ELSE 1,
       mx |-> IF Same(a, c) THEN 3 ELSE IF cb > 0 THEN 2 ELSE 1]
 
 \* --- a value and another member of the universe that is the same value (a twin built
 \* differently, a copy made in another epoch, a duplicate): equal and equivalent, everywhere
-EqFields == <<"eq", "teq", "peq", "leq", "req">>
+EqFields == <<"eq", "teq", "peq", "leq", "req", "ceq", "deq">>
 SameValueAt(R, k, p, q) ==
   IF p = q \/ ~Same(R.u[p], R.u[q]) THEN <<>>
   ELSE One(R.cmp[p][q] \in {0, 99}, "same_value_equal", k, p, q, "cmp")
@@ -437,7 +527,7 @@ SameValueAt(R, k, p, q) ==
 AllFields == MatrixFields
 Disagreements(k, p, q) ==
   LET R == Batches[k] IN
-  IF R.src = "model" THEN <<>>
+  IF R.src \in {"model", "selftest"} THEN <<>>
   ELSE LET Mo == ModelAt(Norm(R.u[p]), Norm(R.u[q])) IN
        IF \A f \in 1..Len(AllFields) : R[AllFields[f]][p][q] = Mo[AllFields[f]] THEN <<>> ELSE
        Flat([f \in 1..Len(AllFields) |->
